@@ -5,6 +5,7 @@ namespace TopSearch.Gen.ModelData
 open TopSearch.ModelData TopSearch.Py
 
 def dedup : DedupCfg := ⟨.retained, .lt, true, true, true⟩
+def counts : CountCfg := ⟨true, true, true, true⟩
 
 def stdResp : Xform := { writes := [⟨.std, .std, true, false⟩, ⟨.mean, .mean, true, false⟩], formula := (.div (.sub (.v 0) (.v 2)) (.v 1)) }
 def unstdResp : Xform := { writes := [], formula := (.add (.mul (.v 0) (.v 1)) (.v 2)) }
